@@ -247,6 +247,30 @@ func derives(v ssa.Value, src func(ssa.Value) bool, seen map[ssa.Value]bool, d i
 				}
 			}
 		}
+	case *ssa.FreeVar:
+		// the value bound where the closure was made
+		fn := x.Parent()
+		idx := -1
+		for i, fv := range fn.FreeVars {
+			if fv == x {
+				idx = i
+			}
+		}
+		if par := fn.Parent(); par != nil && idx >= 0 {
+			for _, b := range par.Blocks {
+				for _, in := range b.Instrs {
+					if mc, ok := in.(*ssa.MakeClosure); ok && mc.Fn == ssa.Value(fn) && idx < len(mc.Bindings) {
+						if derives(mc.Bindings[idx], src, seen, d+1) {
+							return true
+						}
+					}
+				}
+			}
+		}
+	case *ssa.Next:
+		return derives(x.Iter, src, seen, d+1)
+	case *ssa.Range:
+		return derives(x.X, src, seen, d+1)
 	case *ssa.MakeClosure:
 		for _, b := range x.Bindings {
 			if derives(b, src, seen, d+1) {
